@@ -412,23 +412,29 @@ pub fn op_conv(ty: &str, kind: &str, text: &[u8]) -> String {
             _ => return String::from("bad-op kind"),
         }
     };
-    let value = &value;
+    // The library converts both `&Value` (what the generated dispatcher uses) and `Value` (public API, e.g. in user code);
+    // both are called and must agree — a difference is printed as `mismatch …` and fails the C03 oracle.
+    let by_ref = &value;
+    let by_value = value;
+    fn both(a: String, b: String) -> String {
+        if a == b { a } else { format!("mismatch by-ref={} by-value={}", a.replace(' ', "_"), b.replace(' ', "_")) }
+    }
     match ty {
-        "u8" => conv_result(TryInto::<u8>::try_into(value)),
-        "i8" => conv_result(TryInto::<i8>::try_into(value)),
-        "u16" => conv_result(TryInto::<u16>::try_into(value)),
-        "i16" => conv_result(TryInto::<i16>::try_into(value)),
-        "u32" => conv_result(TryInto::<u32>::try_into(value)),
-        "i32" => conv_result(TryInto::<i32>::try_into(value)),
-        "u64" => conv_result(TryInto::<u64>::try_into(value)),
-        "i64" => conv_result(TryInto::<i64>::try_into(value)),
-        "usize" => conv_result(TryInto::<usize>::try_into(value)),
-        "isize" => conv_result(TryInto::<isize>::try_into(value)),
-        "f32" => conv_result(TryInto::<f32>::try_into(value)),
-        "f64" => conv_result(TryInto::<f64>::try_into(value)),
-        "bool" => conv_result(TryInto::<bool>::try_into(value)),
-        "str" => conv_result(TryInto::<&str>::try_into(value)),
-        "bytes" => conv_result(TryInto::<&[u8]>::try_into(value)),
+        "u8" => both(conv_result(TryInto::<u8>::try_into(by_ref)), conv_result(TryInto::<u8>::try_into(by_value))),
+        "i8" => both(conv_result(TryInto::<i8>::try_into(by_ref)), conv_result(TryInto::<i8>::try_into(by_value))),
+        "u16" => both(conv_result(TryInto::<u16>::try_into(by_ref)), conv_result(TryInto::<u16>::try_into(by_value))),
+        "i16" => both(conv_result(TryInto::<i16>::try_into(by_ref)), conv_result(TryInto::<i16>::try_into(by_value))),
+        "u32" => both(conv_result(TryInto::<u32>::try_into(by_ref)), conv_result(TryInto::<u32>::try_into(by_value))),
+        "i32" => both(conv_result(TryInto::<i32>::try_into(by_ref)), conv_result(TryInto::<i32>::try_into(by_value))),
+        "u64" => both(conv_result(TryInto::<u64>::try_into(by_ref)), conv_result(TryInto::<u64>::try_into(by_value))),
+        "i64" => both(conv_result(TryInto::<i64>::try_into(by_ref)), conv_result(TryInto::<i64>::try_into(by_value))),
+        "usize" => both(conv_result(TryInto::<usize>::try_into(by_ref)), conv_result(TryInto::<usize>::try_into(by_value))),
+        "isize" => both(conv_result(TryInto::<isize>::try_into(by_ref)), conv_result(TryInto::<isize>::try_into(by_value))),
+        "f32" => both(conv_result(TryInto::<f32>::try_into(by_ref)), conv_result(TryInto::<f32>::try_into(by_value))),
+        "f64" => both(conv_result(TryInto::<f64>::try_into(by_ref)), conv_result(TryInto::<f64>::try_into(by_value))),
+        "bool" => both(conv_result(TryInto::<bool>::try_into(by_ref)), conv_result(TryInto::<bool>::try_into(by_value))),
+        "str" => both(conv_result(TryInto::<&str>::try_into(by_ref)), conv_result(TryInto::<&str>::try_into(by_value))),
+        "bytes" => conv_result(TryInto::<&[u8]>::try_into(by_ref)),
         _ => String::from("bad-op type"),
     }
 }
